@@ -26,7 +26,10 @@ Proof. exact export_det_frame. Qed.
 Theorem c03_frame_ok : forall l c, frame_ok c (run_exports c l).
 Proof. exact run_exports_frame. Qed.
 
-(* [F] the same through the modelled control flow of Circuit::placeGlobal/legalize/placeDetailed: any stage, any oracle
+(* [F, but true by the SHAPE of the model: in Api.v a modelled stage can change the circuit only through export_* and the
+   flag setters, so this says nothing about what the real algorithms write; that is the subject of
+   c03_algorithms_write_only_through_exports (translator-derived table + rule) and of the per-run sampling]
+   the same through the modelled control flow of Circuit::placeGlobal/legalize/placeDetailed: any stage, any oracle
    (number and content of the callbacks, success or failure of each step), any outcome (return, parameters rejected,
    infeasible legalization, callback throwing at any invocation, internal error), with a callback that does not
    itself modify the circuit *)
@@ -47,8 +50,13 @@ Proof. exact frame_okb_correct. Qed.
 Theorem c03_orient_keptb_correct : forall a b, orient_keptb a b = true <-> cellO a = cellO b.
 Proof. exact orient_keptb_correct. Qed.
 
-(* [F over the GENERATED table; the translator is trusted] the abstraction of Api.v is justified for the source of
-   this run: among all functions of src/place_global, src/place_detailed and src/*.cpp other than Circuit's own
+(* [translator-derived table + rule: F over the GENERATED table; the analysis that produces the table (tools/circuit_access.py
+   over clang's AST) is trusted Python, and escapes it does not recognise are NOT SEEN -- recognised sources of a mutable
+   Circuit: DeclRefExpr of a Circuit& parameter / variable, MemberExpr circuit_, `this` in a friend, any other lvalue
+   expression of non-const Circuit type (listed as UUnknown = refused); token scan for const_cast / reinterpret_cast /
+   mutable.  Not seen: writes through pointers or references to FIELDS obtained by other means, memcpy-style writes, code
+   outside the scanned directories]
+   the abstraction of Api.v is supported for the source of this run: among all functions of src/place_global, src/place_detailed and src/*.cpp other than Circuit's own
    members, there is a set R containing GlobalPlacer::place, DetailedPlacer::place and DetailedPlacer::legalize and
    closed under "hands the mutable circuit on" (by reference argument, or by storing it in a member of the class)
    such that every use of a mutable circuit is a read, a hand-over, a write of one of the two bookkeeping flags, or
